@@ -287,6 +287,29 @@ def _types(ts: Tuple[V, ...]) -> str:
     return "[" + ", ".join(one(t) for t in ts) + "]"
 
 
+def rule_cyclic_values(ctx: Ctx, repo: Repo) -> None:
+    """R-C04.9: "for any finite collection of runtime values inference terminates without error" - a container that contains itself
+    (`l = []; l.append(l)`, a dict that holds itself, a tuple in a list in that tuple's list) is a finite value.  get_type is
+    interpreted on such values; the element that is the container re-enters get_type with the same object: unless the source
+    stops there, the descent never ends (RecursionError in CPython)."""
+    from . import concrete_infer as CI
+    w = f"{TY}.get_type"
+    ctx.functions.add(w)
+    shapes = [("a list that contains itself", lambda me: CI.lst("cyc", me)), ("a list of an int and itself", lambda me: CI.lst("cyc2", K(1), me)),
+              ("a dict whose value is the dict itself", lambda me: CI.dct("cycd", (K("self"), me))), ("a list holding a tuple that holds the list", lambda me: CI.lst("cyc3", CI.tup("t", me)))]
+    n = 0
+    for what, make in shapes:
+        outcomes = []
+        for k in (0, 2):
+            res = CI.infer_cyclic(repo, make, k)
+            n += 1
+            raised = isinstance(res, R) and res.kind == "raises"
+            outcomes.append("raises " + str(res.fields["what"].v) if raised else ("undetermined" if isinstance(res, U) else "ok"))
+        ctx.check(all(o == "ok" for o in outcomes), "R-C04.9", w, "inference of a finite value terminates without error, also when the value contains itself",
+                  construct=f"{what}: get_type descends into the element that is the container itself, without end ({sorted(set(outcomes))[0] if outcomes else ''})")
+    ctx.floor("R-C04.9", "self-containing values inferred", n, 6)
+
+
 def run(ctx: Ctx, repo: Repo, tier: str) -> None:
     # concrete small values first: they decide also when a new code path is beyond the abstract scenarios below
     from .concrete_infer import concrete_rules
@@ -314,4 +337,5 @@ def run(ctx: Ctx, repo: Repo, tier: str) -> None:
     # the type object happens to be false as a truth value, or for any other reason) - R-C14.1a
     from . import c14 as _c14
     ctx.attempt(_c14.rule_traces_to_sets, ctx, repo)
+    ctx.attempt(rule_cyclic_values, ctx, repo)
     ctx.settle()
